@@ -335,6 +335,20 @@ def growth_monotone(ctx, s):
             s.add("S-ORDER", fn, "set_len<resize", "grow", rinfo["sp"], PROVED if (same and order) else VIOLATION,
                   "the mapping is resized only after the file was grown, to the same length" if (same and order) else
                   "the mapping can be resized beyond the file length (SIGBUS on access)", rb)
+    # the length remembered for the next grow is the length the file was just given
+    stores = [(b, i) for b, i in an.calls() if (i["callee"] or "").startswith("core::sync::atomic::") and
+              (i["callee"] or "").rsplit("::", 1)[-1] == "store"]
+    uncast = lambda v: uncast(v[-1]) if v[0] == "cast" else v
+    for sb, sinfo in stores:
+        names, _ = s.receiver_field(fn, sinfo["args"][0])
+        if not names or names[-1] != "event_map_file_len":
+            continue
+        sv = strip_sites(uncast(sinfo["args"][1]))
+        same = any(strip_sites(uncast(i["args"][1])) == sv for b, i in sl)
+        s.add("S-REL", fn, "recorded-length-follows-file", "store(len) == set_len(len)", sinfo["sp"], PROVED if same else VIOLATION,
+              "the length stored for the next grow is the one just passed to set_len" if same else
+              "the length remembered for the next grow differs from the length the file was given: the next grow computes a length "
+              "below the real one and set_len truncates stored events", sb)
     # the grow branch is taken only for the appender's own out-of-space error; anything else is returned
     apps = s.calls(fn, names={DEP_APPEND})
     ctx.floor("C04.grow.append-calls", len(apps), 2)
@@ -493,6 +507,33 @@ def one_snapshot(ctx, s, root="pocket_db::Store::find_events"):
 
 FILE_WRITE = ("write", "write_all", "write_at", "write_all_at", "write_vectored", "write_fmt", "seek", "sync_all", "sync_data",
               "set_permissions", "set_modified", "set_times")
+
+
+def no_cached_map_pointers(ctx, s):
+    """references into the event map are built from the mapping as it is now (through the dependency's own accessors,
+    under its lock): no function of pocket-db builds a slice from a raw pointer or keeps a raw pointer in an atomic -
+    a base address remembered across a growth step dangles once the mapping moves"""
+    F, G = ctx.F, ctx.G
+    bad = []
+    for p, f in sorted(F.fns.items()):
+        if not p.startswith("pocket_db::"):
+            continue
+        for bi, c, t in G.sites[p]:
+            l = c.rsplit("::", 1)[-1]
+            if c.startswith("core::slice::") and l in ("from_raw_parts", "from_raw_parts_mut"):
+                bad.append((f, bi, c, t, "a slice is built from a raw pointer"))
+            elif c.startswith("core::sync::atomic::") and any("AtomicPtr" in a or "Atomic<*" in a for a in (t.get("aty") or [])[:1]):
+                bad.append((f, bi, c, t, "a raw pointer is kept in an atomic"))
+            elif c.startswith("core::sync::atomic::") and l == "new" and any(a.startswith("*") for a in (t.get("aty") or [])[:1]):
+                bad.append((f, bi, c, t, "a raw pointer is kept in an atomic"))
+    anchor = ctx.fn("pocket_db::EventStore::get_event_by_offset")
+    for f, bi, c, t, why in bad:
+        s.add("S-EFFECT", f, "raw-pointer-into-map", c.rsplit("::", 1)[-1], t["sp"], VIOLATION,
+              "%s in pocket-db (%s): an address of the event map remembered outside the mapping's own lock is stale after the map "
+              "grows and moves; references built from it dangle" % (why, c), bi)
+    if not bad:
+        s.add("S-EFFECT", anchor, "raw-pointer-into-map", "none", anchor.sp, PROVED,
+              "no function of pocket-db builds slices from raw pointers or stores a raw pointer in an atomic")
 
 
 def no_direct_file_writes(ctx, s):
